@@ -27,6 +27,15 @@ def run(tier, v, wd, replay=None):
     with open(part) as f:
         lines += f.readlines()
     os.remove(part)
+    # every placement of three CRYPTO pieces (in order, out of order, duplicated) in up to three plain packets and datagrams
+    part = vec + ".flights"
+    r = vlib.tlc(wd, "Sniff", "Sniff_flights.cfg", emit_to=part, timeout=3000)
+    v.add_tlc(r)
+    if r.violated:
+        raise vlib.Infra("Sniff.tla violates %s in the model (flights)" % r.violated)
+    with open(part) as f:
+        lines += f.readlines()
+    os.remove(part)
     with open(vec, "w") as out:
         out.writelines(lines)
     repo = vlib.scratch_repo(wd, "stub")
